@@ -123,6 +123,16 @@ def run_total(spec):
             o.check(res <= 10 * tol, "coolant_enthalpy_vs_assigned", "enthalpy rise %.10e vs assigned %.10e" % (H, exp_tot))
         o.check(abs(tot_del - exp_tot) <= tol * scale + 1e-12, "core_deposited_total",
                 "%.10e vs %.10e" % (tot_del, exp_tot))
+        # the same input read and set up once more in this process (next time point, orificing iteration, a script):
+        # the assigned powers are again the integrals of the same files
+        c.read()
+        r2 = c.make_reactor()
+        o.check(abs(r2.total_power - exp_tot) <= 1e-9 * scale + 1e-12, "second_setup_total_power",
+                "second Reactor from the same input: %.10e vs analytic %.10e" % (r2.total_power, exp_tot))
+        for a in r2.assemblies:
+            e = exp[str(a.id + 1)]["total"]
+            o.check(abs(a.total_power - e) <= 1e-9 * scale, "second_setup_assembly_power",
+                    "asm %d: %.10e vs analytic %.10e" % (a.id, a.total_power, e))
         o.nontrivial = order >= 1 and (ncell >= 2 or not al) and exp_tot > 0
     return o
 
